@@ -1040,6 +1040,13 @@ class Evaluator:
             st.ev('ret', ('void',), site_of(n, st))
             yield st, ('ret', ('void',))
             return
+        e0 = self.strip(inner[0])
+        if qt(inner[0]) == 'bool' and e0.get('kind') in ('BinaryOperator', 'CXXOperatorCallExpr', 'UnaryOperator'):
+            # `return a != b;` is normalised to `if (a != b) return true; else return false;` (same behaviour, one more branch)
+            for st2, truth in self.cond(inner[0], st):
+                st2.ev('ret', ('bool', truth), site_of(n, st2))
+                yield st2, ('ret', ('bool', truth))
+            return
         for st2, t in self.rv(inner[0], st):
             st2.ev('ret', t, site_of(n, st2))
             yield st2, ('ret', t)
